@@ -32,4 +32,8 @@ LongInv == R.kind = "long" =>
              /\ R.accepted = e.ok
              /\ (R.accepted => R.nitems = (R.reps - 1) * Len(b.items) + Len(e.items))
              /\ (~R.accepted => R.stdoutLen = 0 /\ R.stderrLen > 0)
+\* "The parser shipped is the one goyacc generates from that grammar file": the driver regenerated the parser with the
+\* goyacc the module pins and compared Go token sequences.  Where goyacc cannot be run the record claims nothing
+\* (the shipped tables are still bound to the grammar behaviourally, TokenTrace).
+RegenInv == R.kind = "regen" => (R.ran => R.same /\ R.ntok > 1000)
 =============================================================================
